@@ -818,3 +818,84 @@ def materialise(state: Dict[str, bytes], dest: str) -> None:
         os.makedirs(os.path.dirname(p), exist_ok=True)
         with _REAL["open"](p, "wb") as fh:
             fh.write(data)
+
+
+class DirOrder:
+    """Directory-enumeration seam: os.listdir / os.scandir under `root` answer in a seeded permutation.
+
+    POSIX promises no order for readdir(); real file systems answer in hash, creation or b-tree order, and the order
+    changes when a directory is restored from a backup.  `seed=None` means sorted order (the reference environment).
+    """
+
+    def __init__(self, root: str, seed: Optional[int]):
+        self.root = os.path.realpath(root)
+        self.seed = seed
+        self.calls = 0
+
+    def _mine(self, path: Any) -> bool:
+        if isinstance(path, int) or path is None:
+            return False
+        try:
+            p = os.path.realpath(os.fspath(path))
+        except Exception:
+            return False
+        if isinstance(p, bytes):
+            return False
+        return p == self.root or p.startswith(self.root + os.sep)
+
+    def _order(self, names: List[str], path: Any) -> List[str]:
+        names = sorted(names)
+        if self.seed is None or len(names) < 2:
+            return names
+        from .rng import H, Stream
+        st = Stream(H(int(self.seed), os.path.relpath(os.path.realpath(os.fspath(path)), self.root), len(names)), "dirorder")
+        st.shuffle(names)
+        return names
+
+    def __enter__(self) -> "DirOrder":
+        self._saved = (os.listdir, os.scandir)
+        real_listdir, real_scandir = self._saved
+        outer = self
+
+        def listdir(path="."):
+            out = real_listdir(path)
+            if outer._mine(path):
+                outer.calls += 1
+                return outer._order(list(out), path)
+            return out
+
+        class _Scan:
+            def __init__(self, entries):
+                self._it = iter(entries)
+
+            def __iter__(self):
+                return self
+
+            def __next__(self):
+                return next(self._it)
+
+            def __enter__(self):
+                return self
+
+            def __exit__(self, *a):
+                return False
+
+            def close(self):
+                pass
+
+        def scandir(path="."):
+            if not outer._mine(path):
+                return real_scandir(path)
+            with real_scandir(path) as it:
+                entries = list(it)
+            outer.calls += 1
+            by_name = {e.name: e for e in entries}
+            return _Scan([by_name[n] for n in outer._order(list(by_name), path)])
+
+        os.listdir = listdir  # type: ignore
+        os.scandir = scandir  # type: ignore
+        return self
+
+    def __exit__(self, *a: Any) -> bool:
+        os.listdir, os.scandir = self._saved  # type: ignore
+        return False
